@@ -56,6 +56,14 @@ Allowed == {"tracker", "manual"}
 
 Cfgs == [priv : BOOLEAN, dht : BOOLEAN, pex : BOOLEAN, sibling : BOOLEAN, mode : {"file", "magnet"}]
 
+\* @obligation C19.flag  reading of the "private" key of the info dict (fail-safe): the torrent is private iff the key is
+\* present and its value is not one of {integer 0, string "0", empty string}.  BEP 27 writes private=1; any other value
+\* that is present -- another integer, another string, a list, a dictionary, an integer that does not fit -- is read as
+\* private, so that a malformed flag never opens a torrent to DHT / PEX.  (This is what internal/metainfo parsePrivateField
+\* does on the unchanged tree; the value classes are named "absent", "int:<n>", "int:big", "str:<s>", "list", "dict".)
+PublicValues == {"absent", "int:0", "str:0", "str:"}
+IsPrivateEncoding(v) == v \notin PublicValues
+
 \* the client knows that the torrent is private
 IsPriv == info = "known" /\ cfg.priv
 \* ... or has learned it from the metadata it refused
